@@ -329,7 +329,7 @@ def run(ctx):
     masks = sorted(set(masks))
     rng = ctx.rng
     records = []
-    reps = 6 if quick else 40
+    reps = 6 if quick else 150
     for mask in masks:
         mask = list(mask)
         for _ in range(reps):
